@@ -59,6 +59,9 @@ type B struct {
 	holdClose     map[int]bool // labels whose close responses are withheld until ReleaseClose
 	heldCloses    map[int][]func()
 	heldAcks      []func() // acknowledgements of upstream chunks withheld while NoAnswer("chunk")
+	conflictLeft  map[int]int // label -> how many more of its resume requests are answered RESUME_REQUEST_CONFLICT
+	conflictDef   int         // default for labels not yet in conflictLeft
+	conflicted    map[int]int // label -> conflict answers given so far
 	noAnswer      map[string]bool // kinds never answered (pending calls / metadata)
 	DialDelay     atomic.Int64
 	DialRefuse    atomic.Int32 // refuse this many dials outright (no transport)
@@ -69,7 +72,7 @@ type B struct {
 
 func New() *B {
 	b := &B{streams: map[uuid.UUID]*streamInfo{}, byLabel: map[int]uuid.UUID{}, genOf: map[int]int{},
-		refuse: map[int]bool{}, refusedOn: map[int]int{}, holdClose: map[int]bool{}, heldCloses: map[int][]func(){}, noAnswer: map[string]bool{}, DialStarted: make(chan int, 256), nextAlias: 10}
+		refuse: map[int]bool{}, refusedOn: map[int]int{}, conflictLeft: map[int]int{}, conflicted: map[int]int{}, holdClose: map[int]bool{}, heldCloses: map[int][]func(){}, noAnswer: map[string]bool{}, DialStarted: make(chan int, 256), nextAlias: 10}
 	b.Broker = broker.New(b.handle)
 	b.Broker.OnDial = func(idx int, c transport.DialConfig) error {
 		select {
@@ -265,6 +268,10 @@ func (b *B) handle(s *broker.Session, m message.Message) {
 			s.Link.Sever(memtr.Loud)
 			return
 		}
+		if known && b.takeConflict(label) {
+			s.Send(&message.UpstreamResumeResponse{RequestID: v.RequestID, ResultCode: message.ResultCodeResumeRequestConflict, ResultString: "conflict"})
+			return
+		}
 		if refuse {
 			b.noteRefused(label, s.Idx)
 		}
@@ -288,6 +295,10 @@ func (b *B) handle(s *broker.Session, m message.Message) {
 		b.mu.Unlock()
 		if b.rec(s, "resumedown", label, v.DesiredStreamIDAlias, "") {
 			s.Link.Sever(memtr.Loud)
+			return
+		}
+		if known && b.takeConflict(label) {
+			s.Send(&message.DownstreamResumeResponse{RequestID: v.RequestID, ResultCode: message.ResultCodeResumeRequestConflict, ResultString: "conflict"})
 			return
 		}
 		if refuse {
@@ -502,3 +513,29 @@ func (b *B) FlushHeldAcks() int {
 	}
 	return len(fs)
 }
+
+// ConflictResumes makes the broker answer the next n resume requests of EVERY stream with
+// RESUME_REQUEST_CONFLICT (n = 0 switches it off).
+func (b *B) ConflictResumes(n int) {
+	b.mu.Lock()
+	b.conflictDef = n
+	b.conflictLeft = map[int]int{}
+	b.mu.Unlock()
+}
+
+func (b *B) takeConflict(label int) bool {
+	b.mu.Lock()
+	defer b.mu.Unlock()
+	if _, seen := b.conflictLeft[label]; !seen {
+		b.conflictLeft[label] = b.conflictDef
+	}
+	if b.conflictLeft[label] > 0 {
+		b.conflictLeft[label]--
+		b.conflicted[label]++
+		return true
+	}
+	return false
+}
+
+// Conflicted returns how many RESUME_REQUEST_CONFLICT answers the stream has been given.
+func (b *B) Conflicted(label int) int { b.mu.Lock(); defer b.mu.Unlock(); return b.conflicted[label] }
